@@ -61,7 +61,11 @@ func (cs c03Case) build(e *Engine, fresh *uint64) Tx {
 	if cs.module {
 		m.Sender = Messenger(m.Src, 0)
 		m.Recipient = modulePadded
-		m.Body = BurnBody(0, Token(v%2), ref.Pad32(AcctBytes((v+1)%NAccounts)), big.NewInt(int64(100+v)), Structured32(0x21))
+		mintTo := ref.Pad32(AcctBytes((v + 1) % NAccounts))
+		if v%8 == 5 { // the module's own account named as mint recipient
+			mintTo = modulePadded
+		}
+		m.Body = BurnBody(0, Token(v%2), mintTo, big.NewInt(int64(100+v)), Structured32(0x21))
 	} else {
 		m.Sender = Structured32(byte(0x30 + v))
 		m.Recipient = Structured32(byte(0x60 + v))
